@@ -31,3 +31,19 @@ Theorem C12_buffered_commands_need_no_read : forall s q p rest,
   s_buf s = frame (s_lim s) q p ++ rest ->
   next s = (ROk (Some (last_seq (s_lim s) q p, p)), set_buf rest s).
 Proof. exact next_no_read. Qed.
+
+(* the server asks the transport for input ONLY at moments when the bytes received so far do not
+   contain a complete command (and stops reading as soon as one is complete): with the two theorems
+   above -- every reply is written and flushed before the next read -- a client that sends one command
+   at a time and waits for each reply never hangs *)
+From MsqlVerif Require Import Proofs.ReadsNeeded.
+Theorem C12_reads_only_when_needed : forall fuel s r s',
+  all_data (s_reads s) ->
+  next_f fuel s = (r, s') ->
+  exists chunks,
+    s_reads s = map RdData chunks ++ s_reads s' /\
+    reads_needed (s_lim s) (s_buf s) chunks /\
+    (forall q p, r = ROk (Some (q, p)) ->
+       packet (s_lim s) (s_buf s ++ concat chunks) = PDone q p (s_buf s')) /\
+    (r = ROk None \/ r = RErr EUnexpectedEof -> needs_input (s_lim s) (s_buf s ++ concat chunks) = true).
+Proof. exact next_reads_only_when_needed. Qed.
